@@ -75,7 +75,7 @@ var encryptErrExceptions = []ErrException{
 
 func runC09(c *Ctx) {
 	p, r := c.P, c.R
-	r.Explanation = "Decides the fail-closed and secure-default clauses structurally: every return of every Node.Process implementation of the repository carries a nil event or a nil error (never both non-nil); inside the encrypt walk no fallible call's error is dropped and each is returned (itself or wrapped) on every path of its error branch, so it reaches Process's error result; rotation payloads are consumed; DefaultFilterOperations is the literal table {public: none, sensitive: encrypt, secret: redact}, a missing tag yields (unknown, unknown) and convertToOperation is the identity on the declared constants; the full decision table of filterValue over classification x operation (no mutation iff public or none; secret/sensitive -> encrypt | hmac | redact per operation, anything else an error; every other classification redacted) including which early exits skip protection; NoOperation never survives for sensitive/secret unless it came from the override map; the handler inventory of the three reflective dispatchers; and that struct values handed to the field walk are settable or replaced by an addressable copy. It does not decide that the reflective walk reaches every string of every payload shape (reflection is opaque), nor cryptographic secrecy."
+	r.Explanation = "Decides the fail-closed and secure-default clauses structurally: every return of every Node.Process implementation of the repository carries a nil event or a nil error (never both non-nil); inside the encrypt walk no fallible call's error is dropped and each is returned (itself or wrapped) on every path of its error branch, so it reaches Process's error result; rotation payloads are consumed; DefaultFilterOperations is the literal table {public: none, sensitive: encrypt, secret: redact}, a missing tag yields (unknown, unknown) and convertToOperation is the identity on the declared constants; the full decision table of filterValue over classification x operation (no mutation iff public or none; secret/sensitive -> encrypt | hmac | redact per operation, anything else an error; every other classification redacted) including which early exits skip protection; NoOperation never survives for sensitive/secret unless it came from the override map; the handler inventory of the three reflective dispatchers; and that struct values handed to the field walk are settable or replaced by an addressable copy. It does not decide that the reflective walk reaches every string of every payload shape (reflection is opaque), nor cryptographic secrecy. C09.tagpair: every on-the-spot classification is computed from the tag that belongs to the very value being filtered (field i / the same PointerTag, in classification,operation order; write-back pointer and tracking entry agree; bare payloads are secret)."
 	r.NotDecided = []string{"completeness of the reflective walk over all payload shapes (arm priority, pointer depth, arrays, shapes falling into the 'nothing reasonable yet' defaults)", "cryptographic secrecy of the wrapper"}
 	c.errControls()
 
@@ -125,10 +125,12 @@ func runC09(c *Ctx) {
 	}
 
 	c.ruleClassifySource()
+	c.ruleTagPair()
 	c.ruleDefaults()
 	c.ruleFilterValueTable()
 	c.ruleNoPass()
 	c.ruleHandlers()
+	c.ruleSkip()
 	c.ruleSettable()
 
 	// processUnfiltered runs before every successful return of a filtered copy
@@ -1001,6 +1003,103 @@ func runC10(c *Ctx) {
 			r.Check(okCopy, "C10.early", "Process:return-copy", p.InstrPos(pa.End), "every other forwarded event is the private copy", "Process forwards "+t.String()+", neither the untouched original nor the private copy")
 		}
 	}
+	// --- C10.guards: the copy (and with it every mutation) is reached only after the three
+	// "forward unchanged" cases were excluded on that very path: nil payload, zero payload,
+	// nothing to filter (flag set only where an operation other than none was seen).
+	nCopyPaths := 0
+	for _, pa := range c.enum("C10.guards", proc, PathOpts{}) {
+		reached := false
+		for _, s := range pa.CallsOn() {
+			if s.In == ssa.Instruction(cp) {
+				reached = true
+			}
+		}
+		if !reached {
+			continue
+		}
+		nCopyPaths++
+		nilPayload, f1 := hasAtom(pa, func(at Atom) bool {
+			return at.Op == "eq" && at.L.Is("Field", "Payload") && at.L.Args[0].IsParam("2:e") && at.R.Is("Const", "nil")
+		})
+		zero, f2 := hasAtom(pa, func(at Atom) bool {
+			return at.Op == "true" && at.L.Is("Call", "(reflect.Value).IsZero") && at.L.Args[0].Is("Call", "reflect.ValueOf") && at.L.Args[0].Args[0].Is("Field", "Payload") && at.L.Args[0].Args[0].Args[0].IsParam("2:e")
+		})
+		var missing []string
+		if !f1 || nilPayload {
+			missing = append(missing, "payload != nil")
+		}
+		if !f2 || zero {
+			missing = append(missing, "!reflect.ValueOf(payload).IsZero()")
+		}
+		if len(missing) > 0 {
+			r.Bad("C10.guards", "Process:copy-guards", p.InstrPos(cp), "the deep copy (and the filtering after it) is reached on a path that did not exclude: "+strings.Join(missing, ", ")+" — such an event must be forwarded unchanged")
+		}
+	}
+	r.Check(nCopyPaths > 0, "C10.guards", "Process:copy-guards", p.InstrPos(cp), fmt.Sprintf("%d paths reach the copy, each after excluding a nil and a zero payload", nCopyPaths), "no path reaches the deep copy")
+	// the nothing-to-filter flag: an If on a boolean phi whose only true source is guarded by `operation != none`
+	okFlag := false
+	noneConst := "?"
+	if pkg := p.SSAPkgs[PkgEncrypt]; pkg != nil {
+		if k, ok := pkg.Members["NoOperation"].(*ssa.NamedConst); ok {
+			noneConst = k.Value.Value.ExactString()
+		}
+	}
+	for _, b := range proc.Blocks {
+		cond, _, fs := condOf(b)
+		phi, isPhi := cond.(*ssa.Phi)
+		if !isPhi || !(b == cp.Block() || b.Dominates(cp.Block())) {
+			continue
+		}
+		// false edge returns the original
+		retOrig := false
+		if len(fs.Instrs) > 0 {
+			if ret, ok := fs.Instrs[len(fs.Instrs)-1].(*ssa.Return); ok {
+				rv := RetVals(ret)
+				retOrig = len(rv) == 2 && tb.Of(rv[0]).IsParam("2:e") && isNilConst(rv[1])
+			}
+		}
+		if !retOrig {
+			continue
+		}
+		good := true
+		var visit func(v ssa.Value, from *ssa.BasicBlock, seen map[ssa.Value]bool)
+		visit = func(v ssa.Value, from *ssa.BasicBlock, seen map[ssa.Value]bool) {
+			if seen[v] {
+				return
+			}
+			seen[v] = true
+			switch x := v.(type) {
+			case *ssa.Phi:
+				for i, e := range x.Edges {
+					visit(e, x.Block().Preds[i], seen)
+				}
+			case *ssa.Const:
+				if bv, ok := constBool(x); ok && bv {
+					// the block assigning true must be entered by the true edge of Lookup(ops, class) != "none"
+					g := false
+					for d := from; d != nil; d = d.Idom() {
+						cc, ts, _ := condOf(d)
+						if bo, ok := cc.(*ssa.BinOp); ok && bo.Op == token.NEQ && (ts == from || ts.Dominates(from)) {
+							lt, rt := tb.Of(bo.X), tb.Of(bo.Y)
+							if lt.Op == "Lookup" && rt.Is("Const", noneConst) {
+								g = true
+							}
+						}
+					}
+					if !g {
+						good = false
+					}
+				}
+			default:
+				good = false
+			}
+		}
+		visit(phi, nil, map[ssa.Value]bool{})
+		if good {
+			okFlag = true
+		}
+	}
+	r.Check(okFlag, "C10.guards", "Process:nothing-to-filter", p.Pos(proc.Pos()), "before the copy, a flag that is set only where an operation other than none was found decides the unchanged early return", "no early return of the original guarded by a flag that is set only under `operation != none` dominates the deep copy")
 	r.Check(nEarly >= 3, "C10.early", "Process:early-returns", p.Pos(proc.Pos()), fmt.Sprintf("%d paths return the untouched original (nil payload, nothing to filter, zero payload)", nEarly), "fewer than 3 early returns of the original event")
 
 	// --- C10.none
@@ -1055,7 +1154,7 @@ func mentionsOutside(t *Term, s string, cut ssa.Value) bool {
 
 func runC16(c *Ctx) {
 	p, r := c.P, c.R
-	r.Explanation = "Decides the key-selection and framing clauses: encrypt() encrypts exactly its data argument with the per-event wrapper option when present, else the filter's wrapper, and returns \"encrypted:\" + RawURL base64 of the marshalled blob; hmacSha256() derives a 32-byte key with NewDerivedReader(ctx, w, 32, salt, info) where w / salt / info are each the per-event option when non-nil else the filter's field (not swapped), MACs exactly its data argument with HMAC(SHA-256, key) and returns \"hmac-sha256:\" + RawURL base64; Process derives the per-event wrapper from NewEventWrapper(ctx, ef.Wrapper, EventId()) under the lock and hands the three per-event options to every value operation; all reads of Wrapper/HmacSalt/HmacInfo and the cryptographic call lie in one critical section, and Rotate / rotation payloads write them under the write lock (copying salt and info). Decrypt round-trip, HKDF and AEAD correctness are third-party semantics and not decided."
+	r.Explanation = "Decides the key-selection and framing clauses: encrypt() encrypts exactly its data argument with the per-event wrapper option when present, else the filter's wrapper, and returns \"encrypted:\" + RawURL base64 of the marshalled blob; hmacSha256() derives a 32-byte key with NewDerivedReader(ctx, w, 32, salt, info) where w / salt / info are each the per-event option when non-nil else the filter's field (not swapped), MACs exactly its data argument with HMAC(SHA-256, key) and returns \"hmac-sha256:\" + RawURL base64; Process derives the per-event wrapper from NewEventWrapper(ctx, ef.Wrapper, EventId()) under the lock and hands the three per-event options to every value operation; all reads of Wrapper/HmacSalt/HmacInfo and the cryptographic call lie in one critical section, and Rotate / rotation payloads write them under the write lock (copying salt and info). Decrypt round-trip, HKDF and AEAD correctness are third-party semantics and not decided. Also the derivation shape: NewDerivedReader = LimitedReader{hkdf.New(sha256.New, checked key bytes of the wrapper argument, salt, info), lenLimit}; NewEventWrapper = aead wrapper keyed with ed25519.GenerateKey(NewDerivedReader(ctx, wrapper, >=32, f(eventId), g(eventId))) with every step checked, so the per-event key is a function of (wrapper key, event id) only."
 	r.NotDecided = []string{"decrypt round-trip and HKDF/AEAD correctness (go-kms-wrapping, x/crypto)", "determinism of derived wrappers beyond the arguments passed"}
 	c.lockControls()
 	must := c.MustLocks()
@@ -1293,6 +1392,7 @@ func runC16(c *Ctx) {
 		})
 	}
 	r.Floor("C16.atomic", 6)
+	c.ruleDerive()
 }
 
 // derivesFromOpts: the variadic argument is the opts slice (make + appends of
